@@ -94,7 +94,22 @@ def run_map(a, rests, cfg):
                     return node
             else:
                 def f_node(ty, data, children):
-                    log.append({'k': 'node', 'arity': len(children), 'kids': [U.project(c, ctx) for c in children]})
+                    from harness.drivers.d_tree import type_tag
+                    # project the raw node data the way project_spec does
+                    if isinstance(data, list):
+                        pd = {'keys': [U.proj_key(k) for k in data], 'm': 0}
+                    elif isinstance(data, tuple) and len(data) == 2 and isinstance(data[1], list) and ty is U.defaultdict:
+                        pd = {'keys': [U.proj_key(k) for k in data[1]], 'm': U.FACTORY_ID[data[0]]}
+                    elif ty is U.deque:
+                        pd = {'keys': [], 'm': 0 if data is None else data + 1}
+                    elif isinstance(data, type):
+                        pd = {'keys': [], 'm': U.CLS_ID.get(data, -7)}
+                    elif isinstance(data, tuple) and data and data[0] == 'meta':
+                        pd = {'keys': [], 'm': data[1]}
+                    else:
+                        pd = {'keys': [], 'm': 0 if data is None else -7}
+                    log.append({'k': 'node', 'arity': len(children), 'ty': 100 if ty is type(None) else type_tag(ty), 'data': pd,
+                                'children_is_tuple': type(children) is tuple})
                     return tuple(children)
             try:
                 res = meth(iter(leaves), f_node, f_leaf)
